@@ -2,7 +2,7 @@
 T3 must-pass-through, helpers for tables)."""
 import re
 
-from .mir import (norm, short, show, show_atom, subexprs, is_log_mac, call_is, const_val)
+from .mir import (norm, short, show, show_atom, subexprs, is_log_mac, call_is, const_val, atom_renderings)
 
 # std methods that change the *membership / content* of a container or slot when given &mut
 MUTATORS = {
@@ -166,6 +166,16 @@ def field_mutations(F, type_prefix, file_suffix):
 
 # ---------------- guards
 def guard_strs(view, bb):
+    """Renderings of the atoms guarding block bb (the written form first, then equivalent spellings)."""
+    out = []
+    for a in view.guards(bb):
+        for s in atom_renderings(a):
+            if s not in out:
+                out.append(s)
+    return out
+
+
+def guard_strs_plain(view, bb):
     return [show_atom(a) for a in view.guards(bb)]
 
 
@@ -282,8 +292,8 @@ def edge_nodes_matching(view, patterns, keep_log=False):
     rxs = [re.compile(p) for p in patterns]
     out = []
     for en in edge:
-        s = show_atom(view.edge_atom(en))
-        if any(rx.search(s) for rx in rxs):
+        ss = atom_renderings(view.edge_atom(en))
+        if any(rx.search(s) for rx in rxs for s in ss):
             out.append(en)
     return out
 
@@ -644,4 +654,41 @@ def must_field_effects(F, view, depth=3, _seen=None):
             ok = not any(e in seen for e in view.exits())
         if ok:
             out[f] = {w for b in blocks for ff, w in per_block[b] if ff == f}
+    return out
+
+
+# ---------------------------------------------------------------------------------------------
+# engine clock: every public entry point of the protocol engine adopts the caller's time before anything else
+def clock_updates(F, entry_names=('handle_network_event', 'service', 'handle_user_event', 'get_next_service_timepoint', 'reset')):
+    """-> list of (entry name, ok, time argument rendering, view)."""
+    out = []
+    for nm in entry_names:
+        vs = F.find_fns('ProtocolState::' + nm, 'src/protocol.rs')
+        if len(vs) != 1:
+            out.append((nm, False, 'anchor missing', None))
+            continue
+        v = vs[0]
+        ups = v.calls('ProtocolState::update_internal_clock')
+        ok = len(ups) == 1
+        arg = show(ups[0].arg(1)) if ups else None
+        if ok:
+            # dominates every other engine call / state read in the entry point: the update's block dominates all other call blocks
+            others = [c for c in v.calls(skip_log=True) if c.bb != ups[0].bb and c.nfn.startswith('protocol::')]
+            ok = all(v.dominates(ups[0].bb, c.bb) for c in others) and ups[0].bb in view_must_blocks(v)
+            ok = ok and arg in ('context.current_time', 'current_time')
+        out.append((nm, ok, arg, v))
+    return out
+
+
+def view_must_blocks(view):
+    """Blocks every entry->return path passes through."""
+    out = set()
+    ex = view.exits()
+    for b in view.live_blocks():
+        if b == 0:
+            out.add(b)
+            continue
+        seen = view.reach([0], avoid=[b])
+        if not any(e in seen for e in ex):
+            out.add(b)
     return out
